@@ -606,6 +606,74 @@ pub fn run(c: &Ctx) {
         let tree = model.t.clone();
         state_body(setup, tree, false)
     });
+    // read_all! on long contents that differ from the expectation (ASCII and multi-byte, character boundaries at and
+    // around plausible display caps): the failure is the macro's, naming itself and the path
+    {
+        let sb = crate::sandbox::root().join(format!("c20-long-{}", std::process::id()));
+        let _ = std::fs::create_dir_all(&sb);
+        let mut contents: Vec<String> = vec![];
+        for cap in [80usize, 100, 255, 256, 512, 1000, 1024, 2048, 4096, 8192] {
+            for lead in [cap - 1, cap, cap + 1] {
+                contents.push(format!("{}{}", "a".repeat(lead), "é".repeat(20)));
+                contents.push(format!("{}{}", "a".repeat(lead.saturating_sub(2)), "日本語".repeat(10)));
+                contents.push("x".repeat(lead + 7));
+            }
+        }
+        for (k, content) in contents.iter().enumerate() {
+            for stdfs in [false, true] {
+                let (v, path) = if stdfs { (Vfs::stdfs(), format!("{}/long", sb.display())) } else { (Vfs::memfs(), "/long".to_string()) };
+                if v.write_all(&path, content.as_bytes()).is_err() {
+                    continue;
+                }
+                c.eval(2);
+                c.nontrivial(fp(&("long-mismatch", k, stdfs)));
+                c.class("read_all:long-content");
+                let backend = if stdfs { "stdfs" } else { "memfs" };
+                let same = crate::engine::catch(|| { rivia::assert_vfs_read_all!(&v, &path, content.clone()); });
+                let differ = crate::engine::catch(|| { rivia::assert_vfs_read_all!(&v, &path, format!("{}!", content)); });
+                let res = match (same, differ) {
+                    (Err(m), _) => Err(Failure::new(format!("macro-fails-on-satisfying-state|read_all|long-content,{}", backend), format!("content of {} bytes equal to the expectation, panicked: {:?}", content.len(), m.chars().take(200).collect::<String>()))),
+                    (_, Ok(())) => Err(Failure::new(format!("macro-passes-vacuously|read_all|long-content,{}", backend), format!("content of {} bytes differs from the expectation, no panic", content.len()))),
+                    (_, Err(m)) if !m.contains("assert_vfs_read_all") => Err(Failure::new(format!("message-does-not-name-macro|read_all|long-content,{}", backend), format!("content of {} bytes: message {:?}", content.len(), m.chars().take(200).collect::<String>()))),
+                    (_, Err(m)) if !m.contains(&path) => Err(Failure::new(format!("message-does-not-name-path|read_all|long-content,{}", backend), format!("content of {} bytes: message {:?}", content.len(), m.chars().take(200).collect::<String>()))),
+                    _ => Ok(()),
+                };
+                c.judge("long", &json!([k, stdfs]), res);
+            }
+        }
+        // entries that are neither directory, link nor regular file (a unix socket made here, the null device): they
+        // exist, and every "is a ..." macro fails on them
+        let sock = format!("{}/sock", sb.display());
+        let listener = std::os::unix::net::UnixListener::bind(&sock);
+        let v = Vfs::stdfs();
+        for p in [sock.as_str(), "/dev/null"] {
+            if p == sock && listener.is_err() {
+                continue;
+            }
+            let runs: Vec<(&str, bool, Result<(), String>)> = vec![
+                ("assert_vfs_exists", false, crate::engine::catch(|| { rivia::assert_vfs_exists!(&v, p); })),
+                ("assert_vfs_no_exists", true, crate::engine::catch(|| { rivia::assert_vfs_no_exists!(&v, p); })),
+                ("assert_vfs_is_file", true, crate::engine::catch(|| { rivia::assert_vfs_is_file!(&v, p); })),
+                ("assert_vfs_is_dir", true, crate::engine::catch(|| { rivia::assert_vfs_is_dir!(&v, p); })),
+                ("assert_vfs_is_symlink", true, crate::engine::catch(|| { rivia::assert_vfs_is_symlink!(&v, p); })),
+                ("assert_vfs_no_symlink", false, crate::engine::catch(|| { rivia::assert_vfs_no_symlink!(&v, p); })),
+            ];
+            for (mac, want_panic, got) in runs {
+                c.eval(1);
+                c.nontrivial(fp(&("special-file", p == sock, mac)));
+                c.class("entry-of-another-kind:socket-or-device");
+                let res = match (want_panic, got) {
+                    (true, Ok(())) => Err(Failure::new(format!("macro-passes-vacuously|{}|socket-or-device,stdfs", mac), format!("{}!({:?}) did not panic", mac, p))),
+                    (false, Err(m)) => Err(Failure::new(format!("macro-fails-on-satisfying-state|{}|socket-or-device,stdfs", mac), format!("{}!({:?}) panicked: {}", mac, p, m))),
+                    (true, Err(m)) if !m.contains(mac) || !m.contains(p) => Err(Failure::new(format!("message-does-not-name-macro-or-path|{}|socket-or-device,stdfs", mac), format!("{}!({:?}) said {:?}", mac, p, m))),
+                    _ => Ok(()),
+                };
+                c.judge("special", &json!([p, mac]), res);
+            }
+        }
+        drop(listener);
+        let _ = std::fs::remove_dir_all(&sb);
+    }
     crate::sandbox::cleanup();
     // a panic that started on another thread and is re-raised inside the closure is still a panic with that message
     {
